@@ -266,19 +266,14 @@ int32_t tls13FindSessionPsk(ssl_t *ssl,
     if (MATRIX_IS_SERVER(ssl))
     {
 #  if defined(USE_SERVER_SIDE_SSL) && defined(USE_STATELESS_SESSION_TICKETS)
-        psSessionTicketKeys_t *key;
+        psSessionTicketKeys_t key;
 
-        if (idLen >= 16 + 12 + 16)
+        if (idLen >= 16 + 12 + 16
+                && matrixSslCopySessionTicketKey(ssl->keys, id, &key) == PS_SUCCESS)
         {
-            key = ssl->keys->sessTickets;
-            while (key)
-            {
-                if (!Memcmp(id, key->name, 16))
-                {
-                    return tls13DecryptTicket(ssl, key, id, idLen, pskOut);
-                }
-                key = key->next;
-            }
+            int32_t rc = tls13DecryptTicket(ssl, &key, id, idLen, pskOut);
+            memzero_s(&key, sizeof(key));
+            return rc;
         }
 #  endif
     }
